@@ -882,7 +882,9 @@ def check_lookup(repo, chk, table_name, table, entries, blocks):
         return False
     param_of_role = {r: q for q, r in q_role.items()}
     env0 = {p: ast.Name(id=p, ctx=ast.Load()) for p in g.params}
-    paths = exec_function(g.node, env0, {}, where)
+    # module-level helpers of cg.py are inlined like nested ones (a lookup helper may be hoisted out of get_cg_coef)
+    helpers = {f.name: (f.node, {}, {}) for q, f in repo.mod(CG_REL).funcs.items() if "." not in q and f.name not in (g.name, "cg_coef")}
+    paths = exec_function(g.node, env0, helpers, where)
     if not paths:
         raise AnalysisError("get_cg_coef: no path reaches a return")
     glob = {table_name: table}
